@@ -49,6 +49,46 @@ def load_cli():
     return mod
 
 
+_PRE = {}
+
+
+def preload():
+    """Parse the shipped force fields and mappings ONCE, in the parent, with the two functions entry() itself calls; the forked
+    workers hand these objects (copy-on-write, private to the worker) to entry() instead of parsing ~6 s per run.  Nothing
+    that depends on the presentation of the input is involved; the subprocess route parses them itself every time."""
+    if _PRE:
+        return
+    from pathlib import Path
+    import vermouth.forcefield
+    from vermouth import DATA_PATH
+    from vermouth.map_input import read_mapping_directory
+    ffs = vermouth.forcefield.find_force_fields(Path(DATA_PATH) / 'force_fields')
+    _PRE['ff_dir'] = Path(DATA_PATH) / 'force_fields'
+    _PRE['map_dir'] = Path(DATA_PATH) / 'mappings'
+    _PRE['ffs'] = ffs
+    _PRE['maps'] = read_mapping_directory(Path(DATA_PATH) / 'mappings', ffs)
+
+
+def use_preloaded(cli):
+    if not _PRE:
+        return
+    import vermouth.forcefield
+    real_find, real_read = vermouth.forcefield.find_force_fields, cli.read_mapping_directory
+
+    def find_force_fields(directory, force_fields=None):
+        if force_fields is None and directory == _PRE['ff_dir']:
+            return _PRE['ffs']
+        return real_find(directory, force_fields)
+
+    def read_mapping_directory(directory, force_fields):
+        if directory == _PRE['map_dir'] and force_fields is _PRE['ffs']:
+            return _PRE['maps']
+        return real_read(directory, force_fields)
+
+    vermouth.forcefield.find_force_fields = find_force_fields
+    cli.read_mapping_directory = read_mapping_directory
+
+
 def all_subclasses(cls):
     seen, todo = [], [cls]
     while todo:
@@ -185,6 +225,7 @@ class Recorder:
         self._seen = {c: {} for c in COMPONENTS}
         self.depth = 0
         self.thr = []
+        self.probe = {}
         self.final = []
         self.errors = []
 
@@ -271,8 +312,10 @@ def thr_cys(proc, system):
     return out
 
 
-def thr_elastic(proc, system):
+def thr_elastic(proc, system, probe=None):
     out = []
+    t = float(proc.upper_bound)
+    best = None
     for mol in system.molecules:
         keys = node_keys(mol)
         sel = [(keys[n], [float(v) for v in a['position']]) for n, a in mol.nodes.items()
@@ -280,9 +323,14 @@ def thr_elastic(proc, system):
         for i in range(len(sel)):
             for j in range(i + 1, len(sel)):
                 d = _dist(sel[i][1], sel[j][1])
-                for t in (float(proc.upper_bound),):
-                    if _on(d, t):
-                        out.append(_item('elastic', sel[i][0], sel[j][0], d, t))
+                if _on(d, t):
+                    out.append(_item('elastic', sel[i][0], sel[j][0], d, t))
+                # probe: the longest distance below the cut-off between beads of one chain, five or more residues apart
+                if d < t * (1 - 1e-3) and sel[i][0][0] == sel[j][0][0] and abs(sel[i][0][1] - sel[j][0][1]) >= 5 \
+                        and (best is None or d > best):
+                    best = d
+    if probe is not None and best is not None:
+        probe['elastic'] = repr(best)
     return out
 
 
@@ -305,7 +353,7 @@ def install(rec):
                     hook = PRE_HOOKS.get(type(self).__name__)
                     if hook is not None:
                         try:
-                            rec.thr.extend(hook(self, system))
+                            rec.thr.extend(hook(self, system, rec.probe) if hook is thr_elastic else hook(self, system))
                         except Exception:      # noqa - reported as a machinery problem by the driver
                             rec.errors.append('threshold hook %s: %s' % (type(self).__name__, traceback.format_exc()[-600:]))
                 rec.depth += 1
@@ -379,6 +427,7 @@ def run_stages(job):
             fh.write(text)
         with contextlib.redirect_stderr(log), contextlib.redirect_stdout(log):
             cli = load_cli()
+        use_preloaded(cli)
         out['wrapped'] = install(rec)
         sys.argv = ['martinize2', '-f', 'in.pdb', '-x', 'cg.pdb', '-o', 'topol.top', '-maxwarn', '1000'] + list(options)
         rc = 0
@@ -393,7 +442,7 @@ def run_stages(job):
         out['names'], out['idx'] = rec.names, rec.idx
         for c in COMPONENTS:
             out[c] = rec.tables[c]
-        out['thr'], out['final'] = rec.thr, rec.final
+        out['thr'], out['final'], out['probe'] = rec.thr, rec.final, rec.probe
         if rec.errors:
             out['harness_error'] = '; '.join(rec.errors)[:1500]
         if rc == 0 and os.path.exists('cg.pdb'):
